@@ -89,4 +89,14 @@ PROPS = {
         trusted=["oracle, not modelled: the url and percent-encoding crates (the model starts from Url::path()/Url::query(); the lane re-checks both on every case)"],
         assumptions=["attribute lists are written without percent-encoding in the theorem; percent-encoded attribute names are F19 (known finding)"],
     ),
+    "C02": dict(
+        groups=[("req", 1500, 100000)],
+        exact_lanes=["req"],
+        rule="sequences of 1-6 real operations (all 11 kinds, arbitrary DNs incl. non-ASCII and 127/128/129/300-byte strings, byte values, empty and multi-valued lists, "
+             "0-3 controls with/without criticality and value, timeouts, search options with boundary limits, unparsable filters, AddNoValues rejections, unbind last) on one handle over the "
+             "in-memory transport with a replying server; the bytes of every request are captured. non-trivial = distinct sequence that wrote at least one request",
+        trivial=["local-error", "panic"],
+        trusted=["modelled not verified: HashSet iteration order (SET OF members are sorted on both sides before comparison); tokio mpsc/oneshot, the driver loop (see C01/C13)"],
+        assumptions=["SASL mechanisms other than EXTERNAL (GSSAPI, NTLM) are not compiled in and not modelled"],
+    ),
 }
